@@ -148,6 +148,8 @@ pub fn single_mutations(base: &[Token], pool: &Pool, r: &mut Rng, full: bool) ->
             ("dash-line-inside", "\n-\nTEXT AFTER DASH LINE"),
             ("colon-line-inside", "\n:NOT A TAG: TEXT"),
             ("dash-brace-inside", "\nTEXT -} MORE"),
+            ("empty-line-inside", "\n\nTEXT AFTER EMPTY LINE"),
+            ("blank-line-inside", "\n   \nTEXT AFTER BLANK LINE"),
         ] {
             let mut f = base.to_vec();
             f[pos].content.push_str(extra);
